@@ -410,7 +410,7 @@ Theorem P_b_sound : forall c,
                  In (f_slot f, r, v, SgRoot v (f_slot f / spe p) r) (opt_list (o_submitted o)))
            /\ (f_sel_err f = false -> o_msg_job o = Some (message_time p (f_slot f)))).
 Proof.
-  intros c H Hok Hns p i. unfold P_b in H. apply andb_true_iff in H as [H _].
+  intros c H Hok Hns p i. unfold P_b in H. apply andb_true_iff in H as [H _]. unfold P_b_base in H. apply andb_true_iff in H as [H _].
   apply andb_true_iff in H as [Hs Hf]. fold p i in Hs, Hf.
   destruct (schedule_check_sound p i (c_out c) Hok Hns Hs) as (Hj & Hnd).
   split; [exact Hj|]. split; [exact Hnd|]. split.
@@ -441,7 +441,7 @@ Theorem P_b_sound_contributions : forall c,
           e = f_slot f / spe p /\ rr = r
           /\ forall a, In a accts -> exists v, a = Some v /\ has_duty i v /\ holds_account i v).
 Proof.
-  intros c H Hok p i k f o r Hkf Hko Hrd Hw Hr. unfold P_b in H. apply andb_true_iff in H as [H _].
+  intros c H Hok p i k f o r Hkf Hko Hrd Hw Hr. unfold P_b in H. apply andb_true_iff in H as [H _]. unfold P_b_base in H. apply andb_true_iff in H as [H _].
   apply andb_true_iff in H as [_ Hf]. fold p i in Hf.
   pose proof (fires_ok_nth p i _ _ k f o Hf Hkf Hko) as Hfo.
   exact (contrib_check_sound p i f o r Hok Hfo Hrd Hw Hr).
@@ -486,6 +486,6 @@ Theorem P_b_sound_aggregate : forall c a o,
       (forall x, In x (agg_items a) -> ~ In (snd x) (a_contrib_err a)) ->
       forall x, In x (agg_items a) -> In (agg_contrib a r x) (opt_list o)).
 Proof.
-  intros c a o H Hg. unfold P_b in H. apply andb_true_iff in H as [_ H]. rewrite Hg in H.
+  intros c a o H Hg. unfold P_b in H. apply andb_true_iff in H as [H _]. unfold P_b_base in H. apply andb_true_iff in H as [_ H]. rewrite Hg in H.
   exact (agg_check_sound a o H).
 Qed.
